@@ -420,6 +420,21 @@ func SealSegments(plaintext, fileKey, noncePrefix []byte, cph int) ([]byte, erro
 	return out, nil
 }
 
+// SealOne seals a single segment with an explicit sequence number.
+func SealOne(plain, fileKey, noncePrefix []byte, cph int, i uint32, last bool) ([]byte, error) {
+	a, err := aead(cph, PayloadKey(fileKey, noncePrefix))
+	if err != nil {
+		return nil, err
+	}
+	return a.Seal(nil, Nonce(noncePrefix, i, last), plain, nil), nil
+}
+
+// NewAEAD is the segment cipher for a file key and nonce prefix (for callers
+// that stream segments instead of holding a document in memory).
+func NewAEAD(fileKey, noncePrefix []byte, cph int) (cipher.AEAD, error) {
+	return aead(cph, PayloadKey(fileKey, noncePrefix))
+}
+
 // BuildHeader returns the three header lines for a manifest line.
 func BuildHeader(fileKey, manifest []byte) []byte {
 	var b bytes.Buffer
